@@ -64,6 +64,13 @@ func c19FlightShapes(g *gen, list func([]string) string) {
 	g.def("offline_filter", "list string", list(c19OfflineFilter(fd)),
 		"fetchOffline: entries skipped before the modification times are compared (`if <name has suffix S> { continue }` inside the loop over the directory), "+g.pos(fd))
 
+	// ---- cacheFileFromEtag: which part of the etag goes into the file name -------------------
+	fd = findFunc("pkg/apk/apk/cache.go", "", "cacheFileFromEtag")
+	use, exts := c19EtagNameUse(fd)
+	g.def("etag_name_use", "list string", list(use),
+		"cacheFileFromEtag: the file name is filepath.Join(<dir>, X+ext); whole = X is the etag parameter itself and nothing assigns to it, "+g.pos(fd))
+	g.def("etag_name_exts", "list string", list(exts), "the extensions: initial value of ext, then the one assigned for the index")
+
 	// ---- apkCache.get -----------------------------------------------------------------
 	fd = findFunc("pkg/apk/apk/implementation.go", "apkCache", "get")
 	g.def("apk_cache_shape", "list string", list(c19OnceShape(fd)), "apkCache.get: sync.Once per key, what the once stores and what happens to a failed entry afterwards, "+g.pos(fd))
@@ -360,4 +367,64 @@ func c19OfflineFilter(fd *ast.FuncDecl) []string {
 		fail("C19: fetchOffline no longer loops over the directory entries")
 	}
 	return out
+}
+
+// c19EtagNameUse: in cacheFileFromEtag(cacheFile, etag): the (only) filepath.Join whose last argument is a
+// concatenation X + <ext variable>; X must be the second parameter; any assignment to that parameter, or any
+// other expression in X's place, is reported instead of "whole".
+func c19EtagNameUse(fd *ast.FuncDecl) (use, exts []string) {
+	if fd == nil || fd.Body == nil || fd.Type.Params == nil {
+		return nil, nil
+	}
+	var params []string
+	for _, p := range fd.Type.Params.List {
+		for _, n := range p.Names {
+			params = append(params, n.Name)
+		}
+	}
+	if len(params) != 2 {
+		fail("C19: cacheFileFromEtag no longer has two parameters")
+		return nil, nil
+	}
+	etag := params[1]
+	extVar := ""
+	found := false
+	ast.Inspect(fd.Body, func(n ast.Node) bool {
+		switch x := n.(type) {
+		case *ast.AssignStmt:
+			for i, l := range x.Lhs {
+				if id, ok := l.(*ast.Ident); ok && id.Name == etag {
+					use = append(use, "reassigned:"+exprText(x))
+				}
+				if i < len(x.Rhs) {
+					if lit, ok := strLit(x.Rhs[i]); ok && strings.HasPrefix(lit, ".") {
+						if id, ok := l.(*ast.Ident); ok && (extVar == "" || extVar == id.Name) {
+							extVar = id.Name
+							exts = append(exts, lit)
+						}
+					}
+				}
+			}
+		case *ast.CallExpr:
+			if exprText(x.Fun) == "filepath.Join" && len(x.Args) >= 2 {
+				if be, ok := x.Args[len(x.Args)-1].(*ast.BinaryExpr); ok && be.Op == token.ADD {
+					if r, ok := be.Y.(*ast.Ident); ok && r.Name == extVar {
+						found = true
+						if l, ok := be.X.(*ast.Ident); !ok || l.Name != etag {
+							use = append(use, "name-from:"+exprText(be.X))
+						}
+					}
+				}
+			}
+		}
+		return true
+	})
+	if !found {
+		fail("C19: cacheFileFromEtag: no filepath.Join(<dir>, <etag part> + <ext>) found")
+		return nil, nil
+	}
+	if len(use) == 0 {
+		use = []string{"whole"}
+	}
+	return use, exts
 }
